@@ -1,11 +1,11 @@
 #!/bin/sh
 # usage: r4_ingest.sh Cxx : copies /tmp/mut/r4-Cxx-work/change<i> to /tmp/mut/Cxx/out/<n> (n continues the numbering of seeded/), confirms and ingests them
-P=$1
+R=${2:-r4}; P=$1
 max=$(ls /verif/seeded | grep "^$P-" | sed "s/$P-//" | sort -n | tail -1); max=${max:-0}
 rm -rf /tmp/mut/$P/out; mkdir -p /tmp/mut/$P/out
 ns=""
 for i in 1 2 3 4; do
-  d=/tmp/mut/r4-$P-work/change$i
+  d=/tmp/mut/$R-$P-work/change$i
   [ -f $d/patch.diff ] || continue
   n=$((max+i)); cp -r $d /tmp/mut/$P/out/$n; ns="$ns $n"
 done
